@@ -129,6 +129,9 @@ def nesting_oracle(outcome, tier, seed):
     outcome.add_sample({"format": "json", "shape": "array", "depth": 127, "input": "[" * 3 + "...1..." + "]" * 3})
 
 
+KNOWN_TOML_NEST = "K-C18-toml-dotted-keys-stack-overflow"
+
+
 def binary_oracle(outcome, tier):
     """The real binaries, on their default main-thread stack, at depths far
     beyond every limit: they must exit 0 or 1, never die from a signal."""
@@ -165,6 +168,21 @@ def binary_oracle(outcome, tier):
                             outcome.oracle_failures.append({
                                 "what": "the %s binary died with status %d at nesting depth %d" % (name, p.returncode, d),
                                 "format": fmt, "shape": sh, "via": via, "stderr": p.stderr.decode("utf-8", "replace")[-300:]})
+        # table nesting that multiplies (inline tables x dotted keys): bounded by neither of the toml crate's two limits
+        for levels in (8, 20, 45, 69):
+            data = corpus.toml_dotted_nest(levels)
+            for to in ("json", "toml"):
+                p = subprocess.run([path, "-f", "toml", "-t", to], input=data, stdout=subprocess.DEVNULL, stderr=subprocess.PIPE, timeout=300)
+                runs += 1
+                if p.returncode not in (0, 1):
+                    if p.returncode == -6 and b"overflowed its stack" in p.stderr and any(k["id"] == KNOWN_TOML_NEST for k in common.load_known("C18")):
+                        if not any(h[0] == KNOWN_TOML_NEST + name for h in outcome.known_hits) and not any(h[0] == KNOWN_TOML_NEST for h in outcome.known_hits):
+                            outcome.known_hits.append((KNOWN_TOML_NEST, "the %s binary overflows its stack (SIGABRT) on TOML with %d nested inline tables under "
+                                                       "79-part dotted keys (%d table levels), target %s" % (name, levels, levels * 79, to)))
+                    else:
+                        outcome.oracle_failures.append({"what": "the %s binary died with status %d on nested TOML tables" % (name, p.returncode),
+                                                        "format": "toml", "shape": "%d inline tables x 79-part dotted keys" % levels,
+                                                        "stderr": p.stderr.decode("utf-8", "replace")[-300:]})
     outcome.evaluations += runs
     outcome.extra["binary_runs"] = runs
 
